@@ -110,17 +110,17 @@ def linNePass (ts : List View) (c : Int) (d : Doms) : Option Doms :=
 
 def iabs (x : Int) : Int := if x < 0 then -x else x
 
-def absPass (s r : View) (d0 : Doms) : Option Doms := do
-  let d ← setLb d0 r 0
-  let sLb := lb d s
-  let sUb := ub d s
-  let d ← setUb d r (max (iabs sLb) (iabs sUb))
-  let d ← if sLb > 0 then setLb d r sLb else if sUb < 0 then setLb d r (iabs sUb) else some d
-  let rUb := ub d r
-  let rLb := lb d r
-  let d ← setLb d s (-rUb)
-  let d ← setUb d s rUb
-  if sUb ≤ 0 then setUb d s (-rLb) else if sLb ≥ 0 then setLb d s rLb else some d
+def absPass (s r : View) (d0 : Doms) : Option Doms :=
+  (setLb d0 r 0).bind fun d1 =>
+  let sLb := lb d1 s
+  let sUb := ub d1 s
+  (setUb d1 r (max (iabs sLb) (iabs sUb))).bind fun d2 =>
+  (if sLb > 0 then setLb d2 r sLb else if sUb < 0 then setLb d2 r (iabs sUb) else some d2).bind fun d3 =>
+  let rUb := ub d3 r
+  let rLb := lb d3 r
+  (setLb d3 s (-rUb)).bind fun d4 =>
+  (setUb d4 s rUb).bind fun d5 =>
+  if sUb ≤ 0 then setUb d5 s (-rLb) else if sLb ≥ 0 then setLb d5 s rLb else some d5
 
 /-! ### Maximum -/
 
@@ -138,15 +138,15 @@ def maxSupport (d : Doms) (xs : List View) (rhsLb : Int) : List View :=
 def maxPass (xs : List View) (r : View) (d0 : Doms) : Option Doms :=
   match xs with
   | [] => some d0
-  | x0 :: _ => do
+  | x0 :: _ =>
     let rhsUb := ub d0 r
-    let (mLb, mUb, d) ← maxLoop1 rhsUb xs (lb d0 x0) (ub d0 x0) d0
-    let d ← setLb d r mLb
-    let d ← if rhsUb > mUb then setUb d r mUb else some d
-    let rhsLb := lb d r
-    match maxSupport d xs rhsLb with
-    | [x] => if lb d x < rhsLb then setLb d x rhsLb else some d
-    | _ => some d
+    (maxLoop1 rhsUb xs (lb d0 x0) (ub d0 x0) d0).bind fun (mLb, mUb, d1) =>
+    (setLb d1 r mLb).bind fun d2 =>
+    (if rhsUb > mUb then setUb d2 r mUb else some d2).bind fun d3 =>
+    let rhsLb := lb d3 r
+    match maxSupport d3 xs rhsLb with
+    | [x] => if lb d3 x < rhsLb then setLb d3 x rhsLb else some d3
+    | _ => some d3
 
 /-! ### IntTimes -/
 
@@ -171,6 +171,9 @@ def timesSigns (a b c : View) (d0 : Doms) : Option Doms := do
   let d ← guard (bMax ≤ -1 && cMin ≥ 1) (fun d => setUb d a (-1)) d
   guard (bMin ≥ 1 && cMax ≤ -1) (fun d => setUb d a (-1)) d
 
+def timesCheck (a b c : View) (d : Doms) : Option Doms :=
+  if fixed d a && fixed d b && fixed d c && lb d a * lb d b != lb d c then none else some d
+
 def timesPass (a b c : View) (d0 : Doms) : Option Doms := do
   let d1 ← timesSigns a b c d0
   let aMin := lb d1 a; let aMax := ub d1 a
@@ -181,7 +184,7 @@ def timesPass (a b c : View) (d0 : Doms) : Option Doms := do
   let d ← guard (bMin ≥ 1 && cMin ≥ 0 && cMax ≥ 1) (fun d => setUb d a (Int.tdiv cMax bMin)) d
   let d ← guard (aMin ≥ 1 && cMin ≥ 0 && cMax ≥ 1) (fun d => setUb d b (Int.tdiv cMax aMin)) d
   let d ← guard (aMin ≥ 0 && aMax ≥ 1 && cMin ≥ 1) (fun d => setLb d b (divCeilPos cMin aMax)) d
-  if fixed d a && fixed d b && fixed d c && lb d a * lb d b != lb d c then none else some d
+  timesCheck a b c d
 
 /-! ### Division -/
 
@@ -220,7 +223,10 @@ def divPositive (n dn r : View) (d0 : Doms) : Option Doms := do
   guard (dMin < newMinD) (fun d => setLb d dn newMinD) d
 
 def divPass (n dn r : View) (d0 : Doms) : Option Doms :=
-  if lb d0 dn < 0 && ub d0 dn > 0 then some d0
+  -- `initialise_at_root` asserts that the denominator's domain does not contain 0; the model does
+  -- nothing when it does (the generators keep 0 out of denominators)
+  if contains d0 dn 0 then some d0
+  else if lb d0 dn < 0 && ub d0 dn > 0 then some d0
   else
     let swap := ub d0 (dn.scaled 1) < 0
     let num := if swap then n.scaled (-1) else n.scaled 1
@@ -237,7 +243,11 @@ def divPass (n dn r : View) (d0 : Doms) : Option Doms :=
 /-! ### Element -/
 
 /-- (index value, element view) pairs -/
-def indexed (xs : List View) : List (Int × View) := (List.range xs.length).zip xs |>.map (fun p => ((p.1 : Int), p.2))
+def indexedFrom (k : Int) : List View → List (Int × View)
+  | [] => []
+  | x :: xs => (k, x) :: indexedFrom (k + 1) xs
+
+def indexed (xs : List View) : List (Int × View) := indexedFrom 0 xs
 
 def elementRemoveLoop (iv : View) (rLb rUb : Int) (d0 : Doms) : List (Int × View) → Doms → Option Doms
   | [], d => some d
@@ -246,20 +256,20 @@ def elementRemoveLoop (iv : View) (rLb rUb : Int) (d0 : Doms) : List (Int × Vie
     (if contains d0 iv k && (rLb > ub d0 x || rUb < lb d0 x) then remove d iv k else some d).bind
       (elementRemoveLoop iv rLb rUb d0 rest)
 
-def elementPass (iv : View) (xs : List View) (r : View) (d0 : Doms) : Option Doms := do
-  let d ← setLb d0 iv 0
-  let d ← setUb d iv ((xs.length : Int) - 1)
-  let support := (indexed xs).filter (fun p => contains d iv p.1)
-  let rLbNew := (support.map (fun p => lb d p.2)).foldl min 2147483647
-  let rUbNew := (support.map (fun p => ub d p.2)).foldl max (-2147483648)
-  let d ← setLb d r rLbNew
-  let d ← setUb d r rUbNew
-  let d ← elementRemoveLoop iv (lb d r) (ub d r) d (indexed xs) d
-  if fixed d iv then
-    match xs[(lb d iv).toNat]? with
-    | some x => (setLb d x (lb d r)).bind (fun d' => setUb d' x (ub d r))
-    | none => some d
-  else some d
+def elementPass (iv : View) (xs : List View) (r : View) (d0 : Doms) : Option Doms :=
+  (setLb d0 iv 0).bind fun d1 =>
+  (setUb d1 iv ((xs.length : Int) - 1)).bind fun d2 =>
+  let support := (indexed xs).filter (fun p => contains d2 iv p.1)
+  let rLbNew := (support.map (fun p => lb d2 p.2)).foldl min 2147483647
+  let rUbNew := (support.map (fun p => ub d2 p.2)).foldl max (-2147483648)
+  (setLb d2 r rLbNew).bind fun d3 =>
+  (setUb d3 r rUbNew).bind fun d4 =>
+  (elementRemoveLoop iv (lb d4 r) (ub d4 r) d4 (indexed xs) d4).bind fun d5 =>
+  if fixed d5 iv then
+    match xs[(lb d5 iv).toNat]? with
+    | some x => (setLb d5 x (lb d5 r)).bind (fun d6 => setUb d6 x (ub d5 r))
+    | none => some d5
+  else some d5
 
 /-! ### clause (unit rule of the nogood propagator) -/
 
@@ -312,9 +322,9 @@ def pass : PropInst → Doms → Option Doms
   | div n dn r, d => divPass n dn r d
   | element i xs r, d => elementPass i xs r d
   | clause ls, d => clausePass ls d
-  | reified r p, d0 => do
+  | reified r p, d0 =>
     -- propagate_reification
-    let d ← if !(atomTrue d0 r || atomFalse d0 r) && p.inconsistent d0 then postAtom d0 r.neg else some d0
+    (if !(atomTrue d0 r || atomFalse d0 r) && p.inconsistent d0 then postAtom d0 r.neg else some d0).bind fun d =>
     if atomTrue d r then p.pass d else some d
 
 end PropInst
